@@ -171,6 +171,9 @@ func runProperty(p *Program, prop string, budget int) *propRun {
 		go func() {
 			defer wg.Done()
 			defer func() { <-sem }()
+			if j.ob.pre {
+				return
+			}
 			r := j.rep.exec.solveObligation(j.ob.node, budget)
 			j.ob.result = r
 			j.ob.status = r.Status
